@@ -28,6 +28,10 @@ func genC13(t *rapid.T) snapCase {
 		RealFS:     rapid.IntRange(0, 7).Draw(t, "fs") == 0,
 	}
 	c.SerfLayer = rapid.IntRange(0, 4).Draw(t, "serf-layer") == 0
+	if rapid.IntRange(0, 4).Draw(t, "stall-leave") == 0 {
+		c.StallLeave = true
+		c.StallMs = rapid.SampledFrom([]int{1, 100, 249, 251, 300, 1000, 31000}).Draw(t, "stall-ms")
+	}
 	c.Names = genNames(t, false)
 	before := genOps(t, 30, map[int]int{opJoin: 6, opLeave: 2, opFailed: 2, opUpdate: 1, opReap: 1, opUser: 2,
 		opQuery: 2, opWitness: 2, opTick: 1, opAdvance: 1})
@@ -196,6 +200,9 @@ func bodyC13(c snapCase, x *vkit.Ctx) {
 		compAfter = r.fs.countKind("rename") - renamesAtLeave
 	}
 	x.Labelf("rejoin=%v", c.Rejoin)
+	if c.StallLeave && !c.RealFS {
+		x.Label("leave-during-slow-write")
+	}
 	x.Labelf("compactions_after_leave=%d", min(compAfter, 3))
 	x.Labelf("member_events_after_leave=%d", min(memberAfter, 3))
 	x.Labelf("alive_at_leave=%d", min(len(r.aliveAtLeave), 3))
